@@ -8,6 +8,12 @@ import shutil
 import esrv
 
 PROPS_V = "Props/C06.v"
+# functions the hand-written model of this property was written against (normalised source stored under harness/corr/guards/;
+# a difference is reported as broken-correspondence: the theorems then no longer speak about the current source)
+SOURCE_GUARDS = [
+    ("esr/fitting/combine_DL.py", "main"),
+]
+
 TRANSLATORS = ["partition"]
 TRUSTED = [
     "Coq 8.16.1 kernel + vm_compute (no native_compute)",
